@@ -656,7 +656,7 @@ class timestamp( object ):
         dt			= self.datetime_from_number( value, tzinfo=tzinfo )
         result			= dt.strftime( self._fmt )
         if subsecond:
-            result	       += ( '%.*f' % ( subsecond, value ))[-subsecond-1:]
+            result	       += ( '%.*f' % ( subsecond, value % 1 ))[-subsecond-1:]
         if dt.tzinfo is not self.UTC or tzdetail is not None:
             if tzdetail is None:
                 result	       += dt.strftime(' %Z' )	# default abbreviation for non-UTC
